@@ -124,6 +124,9 @@ ARITH = [f for f in FORMS if f[1] in (P_MUL, P_ADD, P_POW, P_UNARY)]
 class Gen:
     def __init__(self, rnd):
         self.r = rnd
+        # side stream for layout variants added later: seeded from the main stream's state without consuming it
+        import random as _random
+        self.r2 = _random.Random(hash(rnd.getstate()[1]))
         self.fav = [rnd.choice(FORMS) for _ in range(3)] + [rnd.choice(ARITH)]
         self.pool = []
 
@@ -278,7 +281,13 @@ class Gen:
             return [sp + f"while {self.cond()}:"] + n1()
         if k < 0.95:
             return [sp + f"with {self.e(1, need=P_ATOM, ml_ok=False)} as y:"] + n1()
-        return [sp + "try:"] + n1() + [sp + "except E as x:"] + n1()
+        # every suite of a `try` holds statement lists of its own: handler bodies, `finally:`
+        v = self.r2.random()
+        if v < 0.45:
+            return [sp + "try:"] + n1() + [sp + "except E as x:"] + n1()
+        if v < 0.75:
+            return [sp + "try:"] + n1() + [sp + "except E as x:"] + n1() + [sp + "finally:"] + n1()
+        return [sp + "try:"] + n1() + [sp + "finally:"] + n1()
 
     def module(self):
         r = self.r
